@@ -119,7 +119,19 @@ func (m *Model) PullPositions(ctx context.Context, ops ...resource.ReadOption) <
 		seenAll := false
 		var last *traits.OpenClosePositions
 
-		for change := range m.positions.Pull(ctx) {
+		changes := m.positions.Pull(ctx)
+		if !readRequest.UpdatesOnly && len(m.positions.List()) == 0 {
+			// a model without positions has no seed values to announce the current value with:
+			// say so ourselves, a new stream starts with the current (empty) positions
+			seenAll = true
+			last = responseFilter.FilterClone(&traits.OpenClosePositions{}).(*traits.OpenClosePositions)
+			select {
+			case <-ctx.Done():
+				return
+			case send <- PullOpenClosePositionsChange{Positions: last, ChangeTime: m.positions.Clock().Now()}:
+			}
+		}
+		for change := range changes {
 			if change.NewValue == nil {
 				delete(all, change.Id)
 			} else {
